@@ -224,31 +224,65 @@ func viewsOf(raw []byte) views {
 
 // ---- Coq printers ------------------------------------------------------------------------
 
+// interner: parsing string literals dominates Coq's time on a case file, and a
+// case repeats a handful of strings hundreds of times.  Every distinct byte
+// string / payload term of a case is bound once by a let in front of the case
+// term: (let s0 := hx "..." in let p0 := mkPayload s0 ... in C40Node ...).
+type interner struct {
+	names map[string]string
+	defs  []string
+}
+
+var cur *interner
+
+func (in *interner) bind(prefix, term string) string {
+	if in == nil {
+		return term
+	}
+	if n, ok := in.names[term]; ok {
+		return n
+	}
+	n := fmt.Sprintf("%s%d", prefix, len(in.defs))
+	in.names[term] = n
+	in.defs = append(in.defs, "let "+n+" := "+term+" in ")
+	return n
+}
+
+func (in *interner) wrap(term string) string {
+	if in == nil || len(in.defs) == 0 {
+		return term
+	}
+	return "(" + strings.Join(in.defs, "") + term + ")"
+}
+
+func hxb(b []byte) string { return cur.bind("s", vh.Hex(b)) }
+func hxs(s string) string { return hxb([]byte(s)) }
+
 func optStr(s *string) string {
 	if s == nil {
 		return vh.None()
 	}
-	return vh.Some(vh.HexS(*s))
+	return vh.Some(hxs(*s))
 }
 
 func coqPayload(raw []byte) string {
 	v := viewsOf(raw)
 	ts := vh.None()
 	if v.hasTsnap {
-		ts = vh.Some(vh.Hex(v.tsnap))
+		ts = vh.Some(hxb(v.tsnap))
 	}
-	return vh.App("mkPayload", vh.Hex(raw), optStr(v.delta), optStr(v.text), vh.Hex(v.canon), vh.B(v.tok), ts, vh.Hex(v.tsnapCanon),
-		vh.N(uint64(v.reason)), vh.HexS(v.terr), vh.B(v.obj), vh.B(v.hassnap))
+	return cur.bind("p", vh.App("mkPayload", hxb(raw), optStr(v.delta), optStr(v.text), hxb(v.canon), vh.B(v.tok), ts, hxb(v.tsnapCanon),
+		vh.N(uint64(v.reason)), hxs(v.terr), vh.B(v.obj), vh.B(v.hassnap)))
 }
 
 func coqSnap(raw []byte) string {
 	v := viewsOf(raw)
-	return vh.App("mkSnap", vh.Hex(raw), optStr(v.text), vh.Hex(v.canon))
+	return vh.App("mkSnap", hxb(raw), optStr(v.text), hxb(v.canon))
 }
 
 func coqEvent(e meta.MessageEventAppend) string {
-	return vh.App("mkEvent", vh.HexS(e.ChannelID), vh.Z(e.ChannelType), vh.HexS(e.ClientMsgNo), vh.HexS(e.EventID), vh.HexS(e.EventKey),
-		vh.HexS(e.EventType), vh.HexS(e.Visibility), vh.Z(e.OccurredAt), coqPayload(e.Payload), vh.Z(e.UpdatedAt))
+	return vh.App("mkEvent", hxs(e.ChannelID), vh.Z(e.ChannelType), hxs(e.ClientMsgNo), hxs(e.EventID), hxs(e.EventKey),
+		hxs(e.EventType), hxs(e.Visibility), vh.Z(e.OccurredAt), coqPayload(e.Payload), vh.Z(e.UpdatedAt))
 }
 
 // snapshot printing modes: views needed by the model (reducer inputs), the
@@ -264,30 +298,30 @@ func coqStateCache(s meta.MessageEventState) string { return coqStateM(s, snapCa
 func coqState(s meta.MessageEventState) string      { return coqStateM(s, snapRaw) }
 
 func coqStateM(s meta.MessageEventState, mode int) string {
-	snap := vh.App("osnap", vh.Hex(s.SnapshotPayload))
+	snap := vh.App("osnap", hxb(s.SnapshotPayload))
 	switch mode {
 	case snapViews:
 		snap = coqSnap(s.SnapshotPayload)
 	case snapCanon:
-		snap = vh.App("mkSnap", vh.Hex(s.SnapshotPayload), vh.None(), vh.Hex(canonOf(s.SnapshotPayload)))
+		snap = vh.App("mkSnap", hxb(s.SnapshotPayload), vh.None(), hxb(canonOf(s.SnapshotPayload)))
 	}
-	return vh.App("mkState", vh.HexS(s.ChannelID), vh.Z(s.ChannelType), vh.HexS(s.ClientMsgNo), vh.HexS(s.EventKey), vh.HexS(s.Status),
-		vh.N(s.LastMsgEventSeq), vh.HexS(s.LastEventID), vh.HexS(s.LastEventType), vh.HexS(s.LastVisibility), vh.Z(s.LastOccurredAt),
-		snap, vh.N(uint64(s.EndReason)), vh.HexS(s.Error), vh.Z(s.UpdatedAt))
+	return vh.App("mkState", hxs(s.ChannelID), vh.Z(s.ChannelType), hxs(s.ClientMsgNo), hxs(s.EventKey), hxs(s.Status),
+		vh.N(s.LastMsgEventSeq), hxs(s.LastEventID), hxs(s.LastEventType), hxs(s.LastVisibility), vh.Z(s.LastOccurredAt),
+		snap, vh.N(uint64(s.EndReason)), hxs(s.Error), vh.Z(s.UpdatedAt))
 }
 
 func coqCursor(c meta.MessageEventCursor) string {
-	return vh.App("mkCursor", vh.HexS(c.ChannelID), vh.Z(c.ChannelType), vh.HexS(c.ClientMsgNo), vh.N(c.LastMsgEventSeq), vh.Z(c.UpdatedAt))
+	return vh.App("mkCursor", hxs(c.ChannelID), vh.Z(c.ChannelType), hxs(c.ClientMsgNo), vh.N(c.LastMsgEventSeq), vh.Z(c.UpdatedAt))
 }
 
 func coqApplied(a meta.MessageEventApplied) string {
-	return vh.App("mkApplied", vh.HexS(a.ChannelID), vh.Z(a.ChannelType), vh.HexS(a.ClientMsgNo), vh.HexS(a.EventID), vh.HexS(a.EventKey),
-		vh.N(a.MsgEventSeq), vh.HexS(a.Status), vh.Z(a.UpdatedAt))
+	return vh.App("mkApplied", hxs(a.ChannelID), vh.Z(a.ChannelType), hxs(a.ClientMsgNo), hxs(a.EventID), hxs(a.EventKey),
+		vh.N(a.MsgEventSeq), hxs(a.Status), vh.Z(a.UpdatedAt))
 }
 
 func coqResult(r meta.MessageEventAppendResult) string {
-	return vh.App("mkResult", vh.HexS(r.ChannelID), vh.Z(r.ChannelType), vh.HexS(r.ClientMsgNo), vh.HexS(r.EventID), vh.HexS(r.EventKey),
-		vh.N(r.MsgEventSeq), vh.HexS(r.Status), coqState(r.State))
+	return vh.App("mkResult", hxs(r.ChannelID), vh.Z(r.ChannelType), hxs(r.ClientMsgNo), hxs(r.EventID), hxs(r.EventKey),
+		vh.N(r.MsgEventSeq), hxs(r.Status), coqState(r.State))
 }
 
 func coqOutcome(r meta.MessageEventAppendResult, err error) string {
@@ -747,7 +781,7 @@ func dumpOne(ctx context.Context, db *meta.DB, k msgKey) (string, any) {
 	if ok {
 		js["cursor"] = cur
 	}
-	return vh.App("mkDump", vh.N(uint64(k.hs)), vh.HexS(k.ch), vh.Z(k.ty), vh.HexS(k.mn), vh.ListOf(states, coqState), c,
+	return vh.App("mkDump", vh.N(uint64(k.hs)), hxs(k.ch), vh.Z(k.ty), hxs(k.mn), vh.ListOf(states, coqState), c,
 		vh.ListOf(applied, coqApplied)), js
 }
 
@@ -1008,7 +1042,7 @@ func runNode(in input) vh.Result {
 	}
 	chanHS := make([]string, len(chanList))
 	for i, ch := range chanList {
-		chanHS[i] = vh.Pair(vh.HexS(ch), vh.N(uint64(routing.HashSlotForKey(ch, hashSlotCount))))
+		chanHS[i] = vh.Pair(hxs(ch), vh.N(uint64(routing.HashSlotForKey(ch, hashSlotCount))))
 	}
 
 	flags := map[string]bool{}
@@ -1127,7 +1161,7 @@ func runNode(in input) vh.Result {
 		for i, k := range keys {
 			states := node.CacheStates(meta.MessageEventMessageKey{ChannelID: k.ch, ChannelType: k.ty, ClientMsgNo: k.mn})
 			sort.Slice(states, func(a, b int) bool { return states[a].EventKey < states[b].EventKey })
-			caches[i] = vh.App("mkCacheDump", vh.HexS(k.ch), vh.Z(k.ty), vh.HexS(k.mn), vh.ListOf(states, coqStateCache))
+			caches[i] = vh.App("mkCacheDump", hxs(k.ch), vh.Z(k.ty), hxs(k.mn), vh.ListOf(states, coqStateCache))
 			cachesJ[i] = map[string]any{"ch": k.ch, "mn": k.mn, "lanes": states}
 		}
 		// tables of the message this call addresses; of every message after the last step
@@ -1158,18 +1192,22 @@ func runNode(in input) vh.Result {
 }
 
 func run(in input) vh.Result {
+	cur = &interner{names: map[string]string{}}
+	var res vh.Result
 	switch in.Kind {
 	case "reduce":
-		return runReduce(in)
+		res = runReduce(in)
 	case "merge":
-		return runMerge(in)
+		res = runMerge(in)
 	case "meta":
-		return runMeta(in)
+		res = runMeta(in)
 	case "node":
-		return runNode(in)
+		res = runNode(in)
 	default:
 		panic("bad case kind " + in.Kind)
 	}
+	res.Coq = cur.wrap(res.Coq)
+	return res
 }
 
 // ---- constants -----------------------------------------------------------------------------------
